@@ -8,6 +8,10 @@ CONFIG = {
     # tasks have their own context (asyncio, trusted)
     'protected_classes': ['contextvars.ContextVar', 'plumpy.base.state_machine.StateMachine'],
     'user_call_snapshot': "seq(attr(PROCESS_STACK, '_value'))",
+    # the list object that was the stack when the unit was entered, as it is at the moment of the call
+    'user_call_snapshot2': "seq(old(attr(PROCESS_STACK, '_value')))",
+    # the awaited callee may be cancelled / interrupted: BaseException-only exceptions can come out of the await
+    'user_await_interruptible': True,
 }
 
 
@@ -41,11 +45,14 @@ def _run_task(self, callback, *args, **kwargs):
     ev = calls()[len(calls()) - 1]
     ensures('one_call', len(calls()) == old(len(calls())) + 1)
     ensures('scope_during_call', seq(attr(ev, 'snapshot')) == s0 + [self])
+    ensures('previous_list_untouched_during_call', seq(attr(ev, 'snapshot2')) == s0)
     ensures('scope_restored', stack() == s0 and wf_stack())
     ensures('previous_list_untouched', list_unchanged(l0))
-    raises(Exception, stack() == s0 and wf_stack() and list_unchanged(l0)
-           and (len(calls()) == old(len(calls())) or seq(attr(calls()[len(calls()) - 1], 'snapshot')) == s0 + [self]))
+    raises(BaseException, stack() == s0 and wf_stack() and list_unchanged(l0)
+           and (len(calls()) == old(len(calls())) or (seq(attr(calls()[len(calls()) - 1], 'snapshot')) == s0 + [self]
+                                                      and seq(attr(calls()[len(calls()) - 1], 'snapshot2')) == s0)))
     replay('scope_during_call', 'process_scope')
+    replay('previous_list_untouched_during_call', 'process_scope')
     replay('scope_restored', 'process_scope')
     replay('previous_list_untouched', 'process_scope')
     replay('raises_only_declared', 'process_scope')
